@@ -295,10 +295,13 @@ AtomsSmall ==
 (* per eightbyte (union {long double; long[2]} is INTEGER,INTEGER), X87UP left alone or X87 merged with SSE is MEMORY *)
 AtomsLd == {F("ldouble"), F("long"), F("char"), F("double"), A("long", 2), A("int", 3), A("char", 3), B("long", 40)}
 
+AtomsMicro == {F("char"), F("double"), B("int", 5)}
+
 AtomsTiny == {F("char"), F("int"), F("double"), F("float"), F("long"), B("int", 5), B("uchar", 7), U("int", 0)}
 
 (* nested member forms: <<aggregate kind, anonymous?, array length (0 = not an array)>> *)
 NestAll == {<<k, an, n>> : k \in {"st", "un"}, an \in BOOLEAN, n \in 0..3} \ {<<k, TRUE, n>> : k \in {"st", "un"}, n \in 1..3}
+NestAnon == {<<"st", TRUE, 0>>, <<"un", TRUE, 0>>}
 NestPlain == {<<"st", FALSE, 0>>, <<"un", FALSE, 0>>}
 NestNoArr == {<<k, an, 0>> : k \in {"st", "un"}, an \in BOOLEAN}
 
